@@ -16,6 +16,8 @@ pub struct Pat {
 pub struct Def {
     pub name: String,
     pub utf8: bool,
+    /// enum-level skips: (literal, priority, extra)
+    pub skips: Vec<(String, usize, String)>,
     pub pats: Vec<Pat>,
     pub frags: Vec<String>,
 }
@@ -26,6 +28,7 @@ pub fn table_defs() -> Vec<Def> {
         .map(|d| Def {
             name: d.name.to_string(),
             utf8: d.utf8,
+            skips: d.skips.iter().map(|(l, p, e)| (l.to_string(), *p, e.to_string())).collect(),
             pats: d
                 .pats
                 .iter()
@@ -64,6 +67,9 @@ pub fn enum_source(d: &Def) -> String {
     s.push_str("#[derive(logos::Logos, Debug, Clone, PartialEq)]\n");
     if !d.utf8 {
         s.push_str("#[logos(utf8 = false)]\n");
+    }
+    for (lit, prio, extra) in &d.skips {
+        let _ = writeln!(s, "#[logos(skip({}, priority = {}{}))]", lit, prio, if extra.is_empty() { String::new() } else { format!(", {}", extra) });
     }
     let _ = writeln!(s, "pub enum {}{} {{", d.name, if lt { "<'s>" } else { "" });
     for p in &d.pats {
@@ -142,6 +148,43 @@ const VOCAB: &[&str] = &[
     "abcabcabc", "0101010101", "ca b", "a b",
 ];
 
+/// A definition that the derive rejects with SEVERAL related priority conflicts: a family of patterns
+/// with nested languages over one character, all at the same priority, so that different DFA states
+/// tie different (nested, overlapping or disjoint) subsets of them. Exercises the error-collection and
+/// error-rendering path with many entries.
+pub fn conflict_family_def(rng: &mut Rng, name: &str) -> Def {
+    let mut pats: Vec<Pat> = Vec::new();
+    let nfam = rng.range(1, 3);
+    let mut v = 0;
+    for f in 0..nfam {
+        let c = ["a", "b", "0", "c"][f % 4];
+        let d = ["x", "y", "1", "z"][f % 4];
+        let prio = rng.range(1, 6);
+        let family = [
+            format!("{c}"), format!("{c}+"), format!("[{c}{d}]+"), format!("{c}{{2,}}"), format!("{c}{c}"), format!("({c}|{d})+"),
+            format!("{c}{d}?"), format!("{c}+{d}"), format!("[{c}{d}]{{1,3}}"), format!("{c}*{d}"),
+        ];
+        let n = rng.range(3, 6);
+        let mut idx: Vec<usize> = (0..family.len()).collect();
+        for _ in 0..n {
+            if idx.is_empty() { break; }
+            let k = idx.remove(rng.below(idx.len()));
+            let as_token = (k == 0 || k == 4) && rng.chance(1, 2);
+            let lit = if as_token { format!("{:?}", family[k].replace('+', "")) } else { format!("r\"{}\"", family[k]) };
+            pats.push(Pat { attr: if as_token { "token".into() } else { "regex".into() }, lit, prio: if rng.chance(1, 6) { prio + 1 } else { prio }, cb: Cb::Unit, extra: String::new(), var: format!("V{}", v) });
+            v += 1;
+        }
+    }
+    // occasionally exact duplicates
+    if rng.chance(1, 3) && !pats.is_empty() {
+        let mut dup = pats[rng.below(pats.len())].clone();
+        dup.var = format!("V{}", v);
+        pats.push(dup);
+    }
+    let frags = VOCAB.iter().map(|s| s.to_string()).collect();
+    Def { name: name.to_string(), utf8: true, skips: Vec::new(), pats, frags }
+}
+
 /// A random definition. `conflicts`: allow equal priorities (the derive may then reject it).
 pub fn random_def(rng: &mut Rng, name: &str, conflicts: bool, many_tokens: bool) -> Def {
     let utf8 = !rng.chance(1, 5);
@@ -191,5 +234,18 @@ pub fn random_def(rng: &mut Rng, name: &str, conflicts: bool, many_tokens: bool)
         pats.push(Pat { attr: "token".into(), lit: "\"a\"".into(), prio: 2, cb: Cb::Unit, extra: String::new(), var: "V0".into() });
     }
     let frags = VOCAB.iter().map(|s| s.to_string()).chain(ALPHA.iter().map(|s| s.to_string())).collect();
-    Def { name: name.to_string(), utf8, pats, frags }
+    // some callback-free skip regexes become enum-level `#[logos(skip(..))]` attributes
+    let mut skips = Vec::new();
+    let mut kept = Vec::new();
+    for p in pats {
+        if p.cb == Cb::Skip && p.attr == "regex" && rng.chance(1, 2) {
+            skips.push((p.lit, p.prio, p.extra));
+        } else {
+            kept.push(p);
+        }
+    }
+    if kept.is_empty() {
+        kept.push(Pat { attr: "token".into(), lit: "\"a\"".into(), prio: 41, cb: Cb::Unit, extra: String::new(), var: "V0".into() });
+    }
+    Def { name: name.to_string(), utf8, skips, pats: kept, frags }
 }
